@@ -3,7 +3,8 @@
 BOUNDED runtime-contract check (never a proof). Arrays are written with each container's OWN writer
 (soundfile, stdlib wave, np.save/savez, torch.save, h5py, ndarray.tofile, a SPHERE writer kept in this
 file), then read with `read_signal` by file name (type inferred from the suffix) and from open binary
-streams (a real file object and a BytesIO) with `force_as`. The expected value is the array that was
+streams (a real file object and a BytesIO) with `force_as`. (Here scipy is absent, so both a '.wav' name
+and force_as='wav' end in the stdlib `wave` reader; soundfile reads wav only under force_as='soundfile'.) The expected value is the array that was
 handed to the writer (cast with numpy's astype when `dtype` is given).
 
 Clauses
@@ -69,7 +70,7 @@ def make_array(sdtype: str, shape, rng_range: str, seed: int, salt: str) -> np.n
 # own SPHERE writer / reader (header layout as in the NIST files shipped with the repo's tests)
 # ----------------------------------------------------------------------------------------------
 def sph_bytes(arr: np.ndarray, order: str) -> bytes:
-    a2 = arr.reshape(arr.shape[0], -1)
+    a2 = arr.reshape(arr.shape[0], 1 if arr.ndim == 1 else arr.shape[1])
     lines = ["NIST_1A", "   1024", "channel_count -i %d" % a2.shape[1], "sample_count -i %d" % a2.shape[0],
              "sample_rate -i 8000", "sample_n_bytes -i 2", "sample_byte_format -s2 %s" % order,
              "sample_coding -s3 pcm", "end_head"]
@@ -188,7 +189,7 @@ def write_container(cont: Container, path: str, arrs: dict):
     if n.startswith("wav_wave"):
         import wave
 
-        a2 = A.reshape(A.shape[0], -1)
+        a2 = A.reshape(A.shape[0], 1 if A.ndim == 1 else A.shape[1])
         w = wave.open(path, "wb")
         try:
             w.setnchannels(a2.shape[1])
@@ -247,6 +248,8 @@ def shape_ok(cont: Container, shape) -> bool:
         return False
     if shape[0] < cont.min_len:
         return False
+    if cont.audio and len(shape) == 2 and shape[1] == 1:
+        return False  # one channel is (n,) for audio; (n, 1) is not a shape an audio file can hold
     return True
 
 
@@ -416,6 +419,9 @@ MAGIC_SUFFIX = {"riff": "wav", "flac": "flac", "aiff": "aiff", "ogg": "ogg", "np
                 "sph": "sph", "sph_fields": "sph", "sph_nonint": "sph", "pickle": "pt", "pickle_reduce": "pt"}
 
 
+ODD_RETURNS = []
+
+
 def wds_key(suffix, style):
     base = {0: "utt1", 1: "a/b/utt.x", 2: "s01.wav.npy.tmp"}[style]
     return base + ("." + suffix if suffix else "")
@@ -434,12 +440,19 @@ def wds_valid_blob(case, tmpdir):
 
 def call_wds(util, key, data):
     """-> (raised?, value or exception)"""
-    with warnings.catch_warnings():
-        warnings.simplefilter("ignore")
-        try:
-            return False, util.wds_read_signal(key, data)
-        except BaseException as e:  # noqa -- the clause is literally "never raises"
-            return True, e
+    import sys
+
+    hook = sys.unraisablehook
+    sys.unraisablehook = lambda *a, **k: None  # libsndfile's virtual-io callbacks complain on stderr for garbage
+    try:
+        with warnings.catch_warnings():
+            warnings.simplefilter("ignore")
+            try:
+                return False, util.wds_read_signal(key, data)
+            except BaseException as e:  # noqa -- the clause is literally "never raises"
+                return True, e
+    finally:
+        sys.unraisablehook = hook
 
 
 def check_wds(case, tmpdir, util):
@@ -459,7 +472,9 @@ def check_wds(case, tmpdir, util):
         rng = _common.make_rng(case["seed"], "c11wds:%d" % case["length"])
         data = rng.integers(0, 256, size=case["length"], dtype=np.uint8).tobytes()
         key = case["key"]
-        must_be_none = True
+        # libsndfile sniffs the format (incl. MPEG sync words) whatever the suffix says: if it does decode random
+        # bytes that is a decode, not a violation; every other reader needs a magic number random bytes lack
+        must_be_none = key.rsplit(".", 1)[-1] not in ("flac", "aiff", "ogg")
     elif sub == "magic":
         rng = _common.make_rng(case["seed"], "c11magic:%s:%d" % (case["magic"], case["length"]))
         data = MAGICS[case["magic"]] + rng.integers(0, 256, size=case["length"], dtype=np.uint8).tobytes()
@@ -489,10 +504,11 @@ def check_wds(case, tmpdir, util):
     raised, val = call_wds(util, key, data)
     if raised:
         return [("C11.wds_never_raises", "key %r, %d bytes: raised %s: %s" % (key, len(data), type(val).__name__, val))]
-    if val is not None and not isinstance(val, np.ndarray):
-        return [("C11.wds_none", "key %r: returned %s (neither None nor an array)" % (key, type(val).__name__))]
     if must_be_none and val is not None:
-        return [("C11.wds_none", "key %r, %d undecodable bytes: returned an array of shape %s" % (key, len(data), val.shape))]
+        return [("C11.wds_none", "key %r, %d undecodable bytes: returned %s" % (key, len(data), type(val).__name__))]
+    if val is not None and not isinstance(val, np.ndarray):
+        # not a clause of the statement (it only says: no exception, None when undecodable); tallied in a note
+        ODD_RETURNS.append("%s bytes under key %r -> %s" % (case.get("container", sub), key, type(val).__name__))
     return []
 
 
@@ -519,20 +535,23 @@ INFER_NAMES = (
 def enumerate_groups(tier, seed):
     """Yield (group descriptor, list of cases sharing one written file) for round trips; single cases otherwise."""
     quick = tier == "quick"
-    # --- round trips: most structure first (multi-channel, keyed), then the rest
-    for shape in SHAPES:
+    # --- round trips: most structure first (multi-channel, keyed), then the rest; then seeded random shapes
+    rng = _common.make_rng(seed, "c11shapes")
+    plan = [(shape, seed) for shape in SHAPES]
+    for i in range(2 if quick else 16):
+        n = int(rng.integers(2, 400))
+        plan.append((((n,) if i % 2 else (n, int(rng.integers(1, 7)))), int(rng.integers(0, 2 ** 31))))
+    if not quick:
+        plan += [(shape, seed + 1 + r) for r in range(2) for shape in SHAPES]
+    for shape, dseed in plan:
         for cont in CONTAINERS:
             if not shape_ok(cont, shape):
                 continue
             for si, sdtype in enumerate(cont.sdtypes):
-                if quick and si >= 4 and shape not in ((64, 3), (7,)):
-                    continue
                 for rng_range in ("full", "small"):
                     if rng_range == "small" and sdtype in ("uint8", "bool"):
                         continue
-                    if quick and cont.name.startswith("hdf5") and cont.variant != "nested" and shape not in ((64, 3), (7,), (0,)):
-                        continue
-                    base = dict(kind="roundtrip", container=cont.name, shape=list(shape), sdtype=sdtype, range=rng_range, seed=seed)
+                    base = dict(kind="roundtrip", container=cont.name, shape=list(shape), sdtype=sdtype, range=rng_range, seed=dseed)
                     cases = []
                     readers = [("path", None)] + [("path", fa) for fa in cont.extra_path_force]
                     if cont.needs_dtype:
@@ -546,8 +565,6 @@ def enumerate_groups(tier, seed):
                             if rng_range == "small" and dt != "int16" and not cont.needs_dtype:
                                 continue  # the small-range file exists for the int16 request
                             for key, _lab in key_table(cont):
-                                if quick and key is not None and dt not in (None, "float32") and via == "bytesio":
-                                    continue
                                 c = dict(base, via=via)
                                 if fa:
                                     c["force_as"] = fa
@@ -653,6 +670,7 @@ def run(tier: str, seed: int) -> dict:
     from pydrobert.speech import util
 
     col = _common.Collector(PROPERTY, tier, seed, budget_s=50 if tier == "quick" else 560)
+    del ODD_RETURNS[:]
     tmpdir = tempfile.mkdtemp(prefix="c11_")
     per = {}
     skipped = []
@@ -711,6 +729,9 @@ def run(tier: str, seed: int) -> dict:
         if stop:
             col.note("stopped early: " + ("time budget" if col.out_of_time() else "failure cap"))
         col.note(narrowing_note(util, tmpdir))
+        if ODD_RETURNS:
+            col.note("wds_read_signal returned something that is neither None nor an ndarray in %d calls (not judged: the statement only forbids "
+                     "exceptions), e.g. %s" % (len(ODD_RETURNS), ODD_RETURNS[:3]))
     finally:
         shutil.rmtree(tmpdir, ignore_errors=True)
     col.note("cases: " + ", ".join("%s=%d" % kv for kv in sorted(per.items()) if ":" not in kv[0]))
@@ -722,10 +743,10 @@ def run(tier: str, seed: int) -> dict:
         rule="one case = one read_signal / wds_read_signal call on a file written here with the container's own writer (or on crafted bytes / names for the "
              "error and wds clauses); a round-trip case is non-trivial when the expected array is non-empty, every error / wds case counts",
         bound="17 container variants (wav 16/32 by soundfile and by wave, flac16, aiff16, npy, npz plain/compressed 3 entries, pt, hdf5 in 4 group layouts, raw, "
-              "sph both byte orders) x shapes {(0,),(1,),(7,),(100,),(5,2),(64,3)} x stored dtypes x {name, name+force_as, open file, BytesIO} x "
+              "sph both byte orders) x shapes {(0,),(1,),(7,),(100,),(5,2),(64,3)} + %d seeded random shapes x stored dtypes x {name, name+force_as, open file, BytesIO} x "
               "dtype {None,f32,f64,i16 (in-range data)} x every key; 19 suffix-less names, 12 unknown force_as; wds: valid bytes of 11 containers x 3 key styles, "
               "%s random byte strings x %d suffixes, 13 magic prefixes + garbage, 12 truncations and bit flips of each valid file" % (
-                  "300" if tier == "quick" else "1500", 9 if tier == "quick" else len(WDS_SUFFIXES)),
+                  2 if tier == "quick" else 16, "300" if tier == "quick" else "1500", 9 if tier == "quick" else len(WDS_SUFFIXES)),
         assumptions=["A-IO-CONTAINER", "A-IO-STREAM"],
     )
 
